@@ -72,27 +72,33 @@ def install(eng):
     FnRef = vc.FnRef
     LT = T.ListV(vc.Target)
     CacheT = T.DictT(vc.Target, vc.Status)
-    GHOSTS = ["ghost:log_pos", "ghost:log_deps", "ghost:log_n", "ghost:bnow", "SpecHashes.chg"]
+    GHOSTS = ["ghost:log_pos", "ghost:log_deps", "ghost:log_n", "SpecHashes.hashes", "Backend._tracked_jobs",
+              "Backend._job_states", "Target.options"]
 
     eng.contract("iface:status_func", params={"target": vc.Target}, returns=vc.BStatus,
-                 returns_expr="bnow[target]", trusted=True, pure=True,
-                 note="the backend's current answer for the target (ghost map bnow)")
+                 returns_expr="BNow(target)", trusted=True, pure=True,
+                 note="the backend's current answer for the target (view BNow of the tracked-job tables, C08)")
     eng.contract(
         "iface:submit_func", params={"target": vc.Target, "dependencies": LT}, trusted=True,
-        requires=["target not in log_pos"],   # C02: at most one submission per target per run
+        requires=["target not in log_pos",    # C02: at most one submission per target per run
+                  "InT(target)", "all(InT(d) and DepOK(d) for d in dependencies)"],   # prerequisites have job ids
         modifies=GHOSTS,
         ensures=["forall(lambda u: (u in log_pos) == (u in old(log_pos) or u == target), Target)",
                  "log_pos[target] == old(log_n)", "log_n == old(log_n) + 1",
                  "all(log_pos[u] == old(log_pos)[u] for u in old(dom(log_pos)))",
                  "log_deps[target] == elems(dependencies)",
                  "forall(lambda u: implies(u != target, log_deps[u] == old(log_deps)[u]), Target)",
-                 "forall(lambda u: implies(u != target, bnow[u] == old(bnow)[u]), Target)",
-                 "forall(lambda u, h: implies(u != target, Changed(h, u) == old(Changed(h, u))), Target, Hashes)"],
+                 "DepOK(target)", "forall(lambda u: implies(old(DepOK(u)), DepOK(u)), Target)",
+                 "forall(lambda u: implies(u.name != target.name, BNow(u) == old(BNow(u))), Target)",
+                 "forall(lambda u, h: implies(u.name != target.name, Changed(h, u) == old(Changed(h, u))), "
+                 "Target, Hashes)"],
         raises={"Exception": {"cond": "True", "modifies": []}},   # a rejected submission changes nothing
         note="interface of the submit callback; the three real callbacks are checked against it")
 
     # invariant shared by schedule / _schedule / _cached_schedule (all names are the closure's own)
     STATIC = [
+        "forall(lambda u, v: implies(InT(u) and InT(v) and u.name == v.name, u == v), Target, Target)",   # C19
+        "forall(lambda u, d: implies(d in deps0(u), InT(d) and InT(u)), Target, Target)",
         "forall(lambda u, d: (d in DepsOf(graph, u)) == (d in deps0(u)), Target, Target)",
         # acyclic: the cycle check's finishing times strictly decrease along dependencies (C04)
         "forall(lambda u, d: implies(d in deps0(u), 0 <= fin[d] and fin[d] < fin[u]), Target, Target)",
@@ -114,7 +120,11 @@ def install(eng):
         "all((u in log_pos) == Needs(SpecF(u)) for u in cache)",
         "all(u in cache for u in log_pos)",
         # targets not decided yet still look as they did when the run started
-        "forall(lambda u: implies(u not in cache, bnow[u] == bstat0(u) and Stale(u, fs, spec_hashes) == stale0(u)), Target)",
+        "forall(lambda u: implies(InT(u) and u not in cache, BNow(u) == bstat0(u) and "
+        "Stale(u, fs, spec_hashes) == stale0(u)), Target)",
+        # every decided target that is not complete has a job id a later submission can name (C07)
+        "all(DepOK(u) for u in cache if SpecF(u) != Status.COMPLETED)",
+        "forall(lambda u: implies(InT(u) and bstat0(u) != BackendStatus.UNKNOWN, DepOK(u)), Target)",
     ]
     MONO = ["subset(dom(old(cache)), dom(cache))",
             "all(rank(u) <= rank(target) for u in cache if u not in old(cache))"]
@@ -131,27 +141,30 @@ def install(eng):
 
     eng.contract(
         "gwf.scheduling:schedule._cached_schedule", params={"target": vc.Target}, returns=vc.Status,
-        captures=CAPT, requires=INV + ["X(target)"], modifies=MODS,
+        captures=CAPT, requires=INV + ["X(target)", "InT(target)"], modifies=MODS,
         ensures=INV + MONO + ["target in cache", "result == cache[target]"],
         raises=EXC, decreases="tup(rank(target), 1)", rec_group="schedule", uses=USES, cover_hints=HINTS_C, serves=["C02", "C05", "C09"])
 
     eng.contract(
         "gwf.scheduling:schedule._schedule", params={"target": vc.Target}, returns=vc.Status,
         captures=CAPT, locals={"submitted_deps": LT},
-        requires=INV + ["X(target)", "target not in cache"], modifies=MODS,
+        requires=INV + ["X(target)", "InT(target)", "target not in cache"], modifies=MODS,
         ensures=STATIC + LOGINV + [
             "all(cache[u] == SpecF(u) and X(u) for u in cache)",
             "all(d in cache for u in cache for d in deps0(u))",
             "all((u in log_pos) == Needs(SpecF(u)) for u in cache)",
             "all(u in cache or u == target for u in log_pos)",
-            "forall(lambda u: implies(u not in cache and u != target, bnow[u] == bstat0(u) and "
+            "forall(lambda u: implies(InT(u) and u not in cache and u != target, BNow(u) == bstat0(u) and "
             "Stale(u, fs, spec_hashes) == stale0(u)), Target)",
+            "all(DepOK(u) for u in cache if SpecF(u) != Status.COMPLETED)",
+            "forall(lambda u: implies(InT(u) and bstat0(u) != BackendStatus.UNKNOWN, DepOK(u)), Target)",
+            "implies(SpecF(target) != Status.COMPLETED, DepOK(target))",
             "subset(dom(old(cache)), dom(cache))",
             "all(rank(u) < rank(target) for u in cache if u not in old(cache))",
             "target not in cache", "result == SpecF(target)", "all(d in cache for d in deps0(target))",
             "(target in log_pos) == Needs(SpecF(target))"],
         loops={1: Loop(seen="sd", inv=INV + [
-            "target not in cache", "X(target)", "all(d in cache for d in sd)",
+            "target not in cache", "X(target)", "InT(target)", "all(d in cache for d in sd)",
             "elems(submitted_deps) == setof(lambda d: d in sd and SpecF(d) != Status.COMPLETED, Target)",
             "subset(dom(old(cache)), dom(cache))",
             "all(rank(u) < rank(target) for u in cache if u not in old(cache))"])},
@@ -164,9 +177,9 @@ def install(eng):
         returns=CacheT, locals={"cache": CacheT},
         requires=STATIC + [
             "dom(log_pos) == NoTargets", "log_n == 0",
-            "all(X(e) for e in endpoints)",
+            "all(X(e) and InT(e) for e in endpoints)",
             # the oracle's inputs are the state at the start of the run
-            "forall(lambda u: bnow[u] == bstat0(u) and Stale(u, fs, spec_hashes) == stale0(u), Target)"],
+            "forall(lambda u: implies(InT(u), BNow(u) == bstat0(u) and Stale(u, fs, spec_hashes) == stale0(u)), Target)"],
         modifies=["Graph.dependencies"] + GHOSTS,
         ensures=[
             # C02 "iff it lies in the dependency cone": result keys are closed, contain the endpoints, and lie in
